@@ -135,6 +135,12 @@ def run_inprocess(argv, answers):
     L = lib()
     fin = io.StringIO("".join(a + "\n" for a in answers))
     fout, ferr = io.StringIO(), io.StringIO()
+    raw = None
+    if all(ord(ch) < 128 for ch in "".join(list(argv) + list(answers))):
+        # an ASCII-only command line on a terminal that can show ASCII only (LANG=C): what the calculator prints
+        # for it must be printable there -- writing anything else raises UnicodeEncodeError, as it would for real
+        raw = io.BytesIO()
+        fout = io.TextIOWrapper(raw, encoding="ascii", errors="strict", newline="", write_through=True)
     old = sys.argv, sys.stdin, sys.stdout, sys.stderr
     sys.argv = ["cvss_calculator"] + list(argv)
     sys.stdin, sys.stdout, sys.stderr = fin, fout, ferr
@@ -148,7 +154,7 @@ def run_inprocess(argv, answers):
             r["exc"] = type(e).__name__ + ": " + str(e)[:200]
     finally:
         sys.argv, sys.stdin, sys.stdout, sys.stderr = old
-    r["out"], r["err"] = fout.getvalue(), ferr.getvalue()
+    r["out"], r["err"] = (raw.getvalue().decode("ascii") if raw is not None else fout.getvalue()), ferr.getvalue()
     return r
 
 
